@@ -2,9 +2,11 @@ SPECIFICATION ISpec
 CONSTANTS
   Sym = {97, 10, 32, 9}
   MaxLen = 3
+  WithFailAt = FALSE
   MaxOps = 8
   ColBug = TRUE
   SetPosBug = FALSE
+  FailBug = FALSE
   EofBug = FALSE
 VIEW IViewDepth
 INVARIANTS SavedExact
